@@ -119,7 +119,7 @@ Section Stream.
 
   Variable q : cache -> lrange -> (list lentry + qerr) * cache.
   Variable Inv : cache -> Prop.
-  Hypothesis q_exact : forall c F, Inv c -> marker l < F <= L \/ F <= marker l ->
+  Hypothesis q_exact : forall c F, Inv c -> 1 <= F -> marker l < F <= L \/ F <= marker l ->
     exact_answer F (fst (q c {| rfirst := F; rlast := L |})) /\ Inv (snd (q c {| rfirst := F; rlast := L |})).
 
   Fixpoint cmds_of (ms : list rmsg) : list (rcmd * N) :=
@@ -154,7 +154,7 @@ Section Stream.
   Proof.
     induction fuel as [|fuel IH]; intros c F HI HF Hlen; [lia|].
     cbn [replicate_loop].
-    destruct (q_exact c F HI (or_introl HF)) as [Hex HI'].
+    destruct (q_exact c F HI ltac:(lia) (or_introl HF)) as [Hex HI'].
     destruct (q c {| rfirst := F; rlast := L |}) as [a c']. cbn [fst snd] in *.
     unfold exact_answer in Hex.
     pose proof (range_consec (lents l) (marker l) F L Hwf ltac:(lia)) as Hc. rewrite <- range_entries_eq in Hc.
@@ -221,13 +221,13 @@ Lemma replicate_leader_behind fuel (q : cache -> lrange -> (list lentry + qerr) 
 Proof. intros H. unfold replicate. replace (applied + 1 <? from) with true by (symmetry; apply N.ltb_lt; lia). reflexivity. Qed.
 
 Lemma replicate_use_snapshot fuel (q : cache -> lrange -> (list lentry + qerr) * cache) (Inv : cache -> Prop) l c applied from :
-  (forall c F, Inv c -> marker l < F <= applied + 1 \/ F <= marker l ->
+  (forall c F, Inv c -> 1 <= F -> marker l < F <= applied + 1 \/ F <= marker l ->
      exact_answer l applied F (fst (q c {| rfirst := F; rlast := applied + 1 |})) /\ Inv (snd (q c {| rfirst := F; rlast := applied + 1 |}))) ->
-  Inv c -> from <= marker l -> marker l <= applied ->
+  Inv c -> 1 <= from -> from <= marker l -> marker l <= applied ->
   fst (replicate (S fuel) q c applied from) = [MUseSnapshot].
 Proof.
-  intros Hq HI Hf Hm. unfold replicate. replace (applied + 1 <? from) with false by (symmetry; apply N.ltb_ge; lia).
-  cbn [replicate_loop]. destruct (Hq c from HI (or_intror Hf)) as [Hex _].
+  intros Hq HI H1 Hf Hm. unfold replicate. replace (applied + 1 <? from) with false by (symmetry; apply N.ltb_ge; lia).
+  cbn [replicate_loop]. destruct (Hq c from HI H1 (or_intror Hf)) as [Hex _].
   destruct (q c _) as [a c']. cbn [fst] in *. unfold exact_answer in Hex.
   replace (from =? applied + 1) with false in Hex by (symmetry; apply N.eqb_neq; lia).
   replace (from <=? marker l) with true in Hex by (symmetry; apply N.leb_le; lia). now subst a.
